@@ -463,7 +463,7 @@ fn initial_balance(asset_name: &str) -> Decimal {
     if asset_name == "usdt" { Decimal::from(INIT_USDT) } else { Decimal::from(INIT_BASE) }
 }
 
-fn constants<MD>(ins: &IndexedInstruments, market_data: MD, latency_ms: u64) -> BacktestArgsConstant<MD, Daily, St> {
+fn constants<MD>(ins: &IndexedInstruments, market_data: MD, latency_ms: u64, signal_only: bool) -> BacktestArgsConstant<MD, Daily, St> {
     let state = EngineState::builder(ins, RecGlobal::default(), RecData::default).time_engine_start(fixtures::t0()).trading_state(TradingState::Enabled).build();
     let executions = vec![ExecutionConfig::Mock(MockExecutionConfig {
         mocked_exchange: ExchangeId::BinanceSpot,
@@ -482,6 +482,7 @@ fn constants<MD>(ins: &IndexedInstruments, market_data: MD, latency_ms: u64) -> 
         latency_ms,
         fees_percent: Decimal::from_str_exact(FEE).unwrap(),
     })];
+    let executions = if signal_only { vec![] } else { executions };
     BacktestArgsConstant { instruments: ins.clone(), executions, market_data, summary_interval: Daily, engine_state: state }
 }
 
@@ -515,6 +516,10 @@ struct Case {
     /// lazily decoded file, say. Nothing after it can be fed; the backtest must not pass that off as a result.
     #[serde(default)]
     fault_at: Option<usize>,
+    /// a SIGNAL-ONLY backtest: no execution link is configured at all (the strategy places no orders); the
+    /// account side of the system then has nothing to do from the first moment on
+    #[serde(default)]
+    signal_only: bool,
 }
 
 type V = (&'static str, String);
@@ -531,7 +536,8 @@ fn run_group(case: &Case, subset: &[usize]) -> Result<RunOut, V> {
     let ins = instruments();
     let dataset = Dataset { events: Arc::new(case.events.iter().map(|(i, p)| (*i, Decimal::from(*p))).collect()) };
     let gates: Gates = Default::default();
-    let start = Arc::new(StartBarrier { ready: Default::default(), need: subset.len(), notify: tokio::sync::Notify::new() });
+    // (no account snapshot ever arrives in a signal-only backtest: nothing to wait for)
+    let start = Arc::new(StartBarrier { ready: Default::default(), need: if case.signal_only { 0 } else { subset.len() }, notify: tokio::sync::Notify::new() });
     let obs: Vec<Arc<Mutex<Obs>>> = subset.iter().map(|_| Default::default()).collect();
     let dynamics: Vec<BacktestArgsDynamic<BtStrategy, DefaultRiskManager<St>>> = subset
         .iter()
@@ -553,11 +559,11 @@ fn run_group(case: &Case, subset: &[usize]) -> Result<RunOut, V> {
     let result = rt.block_on(async {
         if case.gated {
             let md = GatedData { fault_at: case.fault_at, data: dataset.clone(), next_stream: Arc::new(AtomicU64::new(1)), gates: gates.clone(), start: start.clone() };
-            tokio::time::timeout(watchdog, run_backtests(Arc::new(constants(&ins, md, case.latency_ms)), dynamics)).await
+            tokio::time::timeout(watchdog, run_backtests(Arc::new(constants(&ins, md, case.latency_ms, case.signal_only)), dynamics)).await
         } else {
             let events: Vec<MarketStreamEvent<InstrumentIndex, Tick>> = dataset.events.iter().enumerate().map(|(k, (i, p))| market_event(0, k as u64, *i, *p)).collect();
             let md = MarketDataInMemory::new(Arc::new(events));
-            tokio::time::timeout(watchdog, run_backtests(Arc::new(constants(&ins, md, case.latency_ms)), dynamics)).await
+            tokio::time::timeout(watchdog, run_backtests(Arc::new(constants(&ins, md, case.latency_ms, case.signal_only)), dynamics)).await
         }
     });
     rt.shutdown_background();
@@ -669,7 +675,13 @@ fn judge_single(case: &Case, b: usize, obs: &Obs, dg: &Digest, elapsed_ms: i64, 
     }
     // ledger identity over the backtest's OWN scripted fills (gated runs: every scripted trade whose
     // instrument already had a price is executed, deterministically)
-    if case.gated {
+    if case.signal_only {
+        out.checks += 1;
+        if !dg.fills.is_empty() || dg.balances.iter().any(|b| b.is_some()) {
+            return Err(("signal_only_backtest_observed_account_activity", format!("bt{b}: fills {:?} balances {:?}", dg.fills, dg.balances)));
+        }
+        out.cells.push("signal_only_backtest:whole_dataset_fed".into());
+    } else if case.gated {
         out.checks += 2;
         let fee = Decimal::from_str_exact(FEE).unwrap();
         let ins = instruments();
@@ -793,7 +805,7 @@ fn gen_case(rng: &mut Rng, workers: usize, gated: bool, small: bool) -> Case {
         .collect();
     let n_bt = if small { rng.range_u(1, 3) } else { *rng.pick(&[1usize, 2, 3, 4, 8, 16, 64]) };
     let n_bt = if workers == 0 && n > 500 { n_bt.min(4) } else { n_bt };
-    let params = (0..n_bt)
+    let params: Vec<Params> = (0..n_bt)
         .map(|_| {
             let k = rng.range_u(0, (n / 4).max(1).min(40));
             let mut trades = BTreeMap::new();
@@ -817,7 +829,10 @@ fn gen_case(rng: &mut Rng, workers: usize, gated: bool, small: bool) -> Case {
     } else {
         None
     };
-    Case { events, params, gated, workers, latency_ms: if workers == 0 { *rng.pick(&[0u64, 10, 500]) } else { *rng.pick(&[0u64, 1, 2]) }, fault_at }
+    // some gated cases are signal-only backtests (no execution configured, no orders)
+    let signal_only = gated && fault_at.is_none() && !small && rng.chance(1, 8);
+    let params: Vec<Params> = if signal_only { params.into_iter().map(|_: Params| Params { trades: BTreeMap::new() }).collect() } else { params };
+    Case { events, params, gated, workers, latency_ms: if workers == 0 { *rng.pick(&[0u64, 10, 500]) } else { *rng.pick(&[0u64, 1, 2]) }, fault_at, signal_only }
 }
 
 fn execute(case: &Case, report: &mut Report) {
@@ -915,6 +930,7 @@ fn main() {
             "concurrent:8-31",
             "concurrent:32+",
             "concurrent:1000+",
+            "signal_only_backtest:whole_dataset_fed",
             "solo_vs_concurrent_compared",
             "backtest_with_fills",
             "fill_time_within_own_historical_time",
